@@ -336,6 +336,16 @@ func child(engine string) {
 				both(fmt.Sprintf("clr%d", a[1]), a[0], uint64(a[2]))
 			case "pass":
 				both(fmt.Sprintf("pass%d_%d", a[1], a[2]), a[0], uint64(a[3]))
+			case "mu": // m, path (-1 own code, q imported accessor), kind, a1, a2
+				name, args := memCall(&h.Mods[a[0]], a[1], a[2], a[3], a[4], "")
+				both(name, a[0], args...)
+			case "mh": // m, kind, a1, a2: the host on the instance's api.Memory
+				if mw.insts[a[0]] == nil {
+					obs[i], twin[i] = "e:nohandle", "e:nohandle"
+				} else {
+					obs[i] = hostMem(mw.insts[a[0]], &h.Mods[a[0]], a[1], a[2], a[3])
+					twin[i] = hostMem(tw.insts[a[0]], &h.Mods[a[0]], a[1], a[2], a[3])
+				}
 			case "enter":
 				// find the matching leave; the steps in between run inside the host function
 				j := i + 1
@@ -351,6 +361,8 @@ func child(engine string) {
 				var args []uint64
 				if l.K == "leaver" {
 					name = fmt.Sprintf("hkr%d", l.A[1])
+				} else if l.K == "leavem" {
+					name, args = memCall(&h.Mods[a[0]], l.A[1], l.A[2], l.A[3], l.A[4], "hk")
 				} else {
 					name, args = fmt.Sprintf("hki%d", l.A[1]), []uint64{uint64(l.A[2])}
 				}
@@ -423,6 +435,63 @@ func child(engine string) {
 	fmt.Fprintf(os.Stdout, "%s\n", b)
 }
 
+// memCall: the exported function that performs accessor `kind` through path p of a module, and its arguments
+// (prefix "hk": the variant that first calls back into the host).
+func memCall(m *ModSpec, p, kind, a1, a2 int, prefix string) (string, []uint64) {
+	var args []uint64
+	switch kind {
+	case 1, 3, 5, 6:
+		args = []uint64{uint64(uint32(a1))}
+	case 2:
+		args = []uint64{uint64(uint32(a1)), uint64(uint32(a2))}
+	}
+	if p >= 0 {
+		return fmt.Sprintf("%sva%d", prefix, p), args
+	}
+	if prefix != "" {
+		return fmt.Sprintf("hkm%d", kind), args
+	}
+	return accName[kind], args
+}
+
+// hostMem: the embedder's own access to the memory of an instance (api.Memory works on closed modules too)
+func hostMem(mod api.Module, m *ModSpec, kind, a1, a2 int) (out string) {
+	defer func() {
+		if e := recover(); e != nil {
+			out = fmt.Sprint("e:PANIC:", e)
+		}
+	}()
+	if mod == nil {
+		return "e:nohandle"
+	}
+	if !m.hasMem() {
+		return "e:nomem"
+	}
+	mem := mod.Memory()
+	switch kind {
+	case 0:
+		return fmt.Sprintf("v:%d", mem.Size()>>16)
+	case 1:
+		v, ok := mem.ReadUint32Le(uint32(a1))
+		if !ok {
+			return "e:oob"
+		}
+		return fmt.Sprintf("v:%d", v)
+	case 2:
+		if !mem.WriteUint32Le(uint32(a1), uint32(a2)) {
+			return "e:oob"
+		}
+		return "ok"
+	case 3:
+		prev, ok := mem.Grow(uint32(a1))
+		if !ok {
+			return "v:4294967295"
+		}
+		return fmt.Sprintf("v:%d", prev)
+	}
+	return "e:badop"
+}
+
 // ---------------------------------------------------------------------------------------------
 // parent
 
@@ -433,7 +502,9 @@ var crashRe = regexp.MustCompile(`SIGSEGV|SIGBUS|SIGILL|SIGABRT|SIGFPE|fatal err
 func supervise(self string, h *History, engine string, tmo time.Duration) Result {
 	r := superviseOnce(self, h, engine, tmo)
 	if r.Crash == "timeout" {
-		r = superviseOnce(self, h, engine, tmo)
+		// the retry gets three times the budget: on an overcommitted machine a child that needs 2 s of CPU has been
+		// seen to take 20 s of wall time
+		r = superviseOnce(self, h, engine, 3*tmo)
 		r.Retried = true
 	}
 	return r
